@@ -1380,7 +1380,13 @@ class SpanElement(ContentElement):
   def get_ruby_attr(ttml_span):
     '''extracts the value of the TTML `tts:ruby` attribute from the XML element `ttml_span`
     '''
-    return ttml_span.get(SpanElement.ruby_attribute_qn)
+    ruby_attr = ttml_span.get(SpanElement.ruby_attribute_qn)
+
+    if ruby_attr is not None and ruby_attr not in ("container", "base", "baseContainer", "text", "textContainer", "delimiter"):
+      LOGGER.error("Bad tts:ruby value (%s)", ruby_attr)
+      return None
+
+    return ruby_attr
 
   @staticmethod
   def from_xml(
